@@ -520,14 +520,14 @@ def _():
 
 
 @bounded("encrypted-documents-round-trip", props=["C10"],
-         bound="quick: 60 documents over {RC4-40 R2, RC4-40/128 R3, V2 and AESV2 R4 with EncryptMetadata on/off, AESV3 R5, R6} x password pairs (empty, ASCII, latin-1, > 32 bytes) x permission words x non-zero generation numbers x strings, arrays of strings, streams, an object stream (R>=4); opened with user, owner and a wrong password; thorough: 1500")
+         bound="quick: 60 documents over {RC4-40 R2, RC4-40/128 R3, V2 and AESV2 R4 with EncryptMetadata on/off, AESV3 R5, R6} x password pairs (empty, ASCII, latin-1, > 32 bytes) x permission words x non-zero generation numbers x strings, arrays of strings, streams, an object stream (R>=4); opened with user, owner and a wrong password; thorough: 6000")
 def _(tier, seed):
     import io, random
     from specs import pdfcrypt as PC
     from specs.pdfrev import Writer
     from specs.pdfgen import Name, Ref, Stream, ser, Raw
     rng = random.Random(seed + 10)
-    n = 60 if tier == "quick" else 1500
+    n = 60 if tier == "quick" else 6000
     PDFParser = real_module("pdfminer.pdfparser").PDFParser
     failures, evals, distinct = [], 0, set()
     for _ in range(n):
